@@ -13,7 +13,7 @@ def jobs(tier):
     thorough = tier == "thorough"
     full = {"name": "all-interleavings", "depth": 16 if not thorough else 20, "preempt": None, "timeout": 200 if not thorough else 1500}
     ctx = {"name": "context-bounded", "depth": 30, "preempt": 2, "timeout": 1500}
-    sizes = [(1, 0), (1, 1), (2, 0), (2, 1)] + ([(2, 2), (3, 1)] if thorough else [])
+    sizes = [(1, 0), (1, 1), (2, 0), (2, 1)] + ([(2, 2)] if thorough else [])
     out = []
     for mx, mn in sizes:
         # join() while a dequeued task is still running (gate-blocked), released by a second client
